@@ -801,8 +801,15 @@ func (gs *GossipSubRouter) OnClosedOutboundStream(p peer.ID) {
 		gs.extensions.OnClosedOutboundStream(p)
 	}
 	delete(gs.peers, p)
-	for _, peers := range gs.mesh {
-		delete(peers, p)
+	for topic, peers := range gs.mesh {
+		if _, ok := peers[p]; ok {
+			delete(peers, p)
+			// no Prune trace event is emitted here, so the tag tracer would
+			// never lift the pubsub:<topic> protection of this mesh peer
+			if gs.tagTracer != nil {
+				gs.tagTracer.untagMeshPeer(p, topic)
+			}
+		}
 	}
 	for _, peers := range gs.fanout {
 		delete(peers, p)
